@@ -711,6 +711,45 @@ func ruleArrBound(c *Ctx) {
 		}
 	}
 	c.Check(okKeep && okNew, hk+"/capacity", P.pos(h.Pos()), "returns its input only where Len+n <= Cap, otherwise a new array of exactly Len+n elements", "the growth helper can return a slice whose capacity is below Len+n")
+	// the capacity the new header advertises is the number of elements actually allocated, not more
+	resolveN := func(v ssa.Value) ssa.Value {
+		if ld, ok := v.(*ssa.UnOp); ok && ld.Op == token.MUL {
+			if v2 := fieldThroughStructCopy(ld); v2 != nil {
+				return v2
+			}
+			if st := reachingStore(ld); st != nil {
+				return st.Val
+			}
+		}
+		return v
+	}
+	var allocN ssa.Value
+	for _, cs := range callsIn(h) {
+		if cs.Static != nil && cs.Static.Name() == "unsafe_NewArray" && len(cs.Common.Args) == 2 {
+			allocN = resolveN(cs.Common.Args[1])
+		}
+	}
+	okCap, nCap := true, 0
+	for _, b := range h.Blocks {
+		for _, in := range b.Instrs {
+			st, ok := in.(*ssa.Store)
+			if !ok {
+				continue
+			}
+			fa, ok := st.Addr.(*ssa.FieldAddr)
+			if !ok || typeKey(fa.X.Type()) != "*avro.sliceHeader" || fieldName(fa.X.Type(), fa.Field) != "Cap" {
+				continue
+			}
+			nCap++
+			cv := resolveN(st.Val)
+			if allocN == nil || !(cv == allocN || isLenPlusN(cv) && isLenPlusN(allocN)) {
+				okCap = false
+			}
+		}
+	}
+	if nCap > 0 {
+		c.Check(okCap, hk+"/cap-is-allocation", P.pos(h.Pos()), "the Cap stored in the new header is the element count handed to unsafe_NewArray", "the growth helper advertises a capacity other than the number of elements it allocates: later items are written past the end of the allocation, into memory the collector does not scan as part of it")
+	}
 }
 
 // ---------- RC-VARINT (C17)
